@@ -209,6 +209,31 @@ impl Monitor for C14 {
                     }
                 }
             }
+            // the oracle of an adaptive-fee pool offered read-only: a swap must not trade without recording the adaptive-fee
+            // state (it either refuses, or leaves the oracle exactly as the writable run does)
+            if ev.salt % 2 == 1 {
+                for slot in ["oracle", "oracle_one", "oracle_two"] {
+                    let Some(si) = c.idx(slot) else { continue };
+                    let ok_key = v.ix.accounts[si].pubkey;
+                    if v.pre.data(&ok_key).and_then(decode::oracle).is_none() {
+                        continue;
+                    }
+                    let mut ix2 = v.ix.clone();
+                    for m in ix2.accounts.iter_mut() {
+                        if m.pubkey == ok_key {
+                            m.is_writable = false;
+                        }
+                    }
+                    let mut f = v.pre.clone();
+                    let r = crate::rt::exec_tx_simple(&mut f, &crate::rt::Tx { ixs: vec![ix2] });
+                    cov.probe("read_only_oracle_forks");
+                    cov.eval(format!("{}|read_only_oracle|ok={}", c.name(), r.ok));
+                    if r.ok && f.data(&ok_key) != v.post.data(&ok_key) {
+                        out.push(viol("traded_without_recording_state", ev.idx, format!("{} on an adaptive-fee pool succeeds with the `{}` account read-only and leaves the oracle without the update the same swap makes when the account is writable", c.name(), slot)));
+                        return out;
+                    }
+                }
+            }
             for o in observe(v.ix, v.out, v.pre, v.post) {
                 let okey = crate::ix::pda_oracle(&o.whirlpool);
                 let (Some(pre_o), Some(post_o)) = (v.pre.data(&okey).and_then(decode::oracle), v.post.data(&okey).and_then(decode::oracle)) else {
